@@ -1,10 +1,12 @@
 (* Model of src/UriQuery.c on values.
    A query list (UriQueryListA/W) is a list of items (key, value) where the value is
    [None] for a NULL pointer.  A C string is represented by its NUL-free content, so
-   strlen is [length].  [int] computations are done in Z; where the C code adds without
-   a guard the model wraps explicitly ([wrap32]), where the C code guards the model
-   performs the same comparison.  Pointer differences (write - dest) are ptrdiff_t
-   (64 bit) in the C code and are not wrapped. *)
+   strlen is [length].  [int] computations are done in Z; where the C code guards a value the
+   model performs the same comparison; the int additions and subtractions of the chars-required
+   pass are done modulo 2^32 ([int_add], [int_sub]: two's complement [wrap32]), so that the model
+   does not presuppose that the guards of that pass are sufficient (Proofs/QueryProofs.v shows
+   that no wrap takes effect).  Pointer differences (write - dest) are ptrdiff_t (64 bit) in the
+   C code and are not wrapped. *)
 From UP Require Import Base.Chars Model.Uri Model.Escape.
 From Coq Require Import ZArith.
 Local Open Scope Z_scope.
@@ -15,6 +17,9 @@ Definition INT_MAX : Z := 2147483647.
 
 (* two's complement wrap of a 32-bit int *)
 Definition wrap32 (z : Z) : Z := (z + 2147483648) mod 4294967296 - 2147483648.
+(* a + b and a - b computed in int *)
+Definition int_add (a b : Z) : Z := wrap32 (a + b).
+Definition int_sub (a b : Z) : Z := wrap32 (a - b).
 
 (* const int worstCase = (normalizeBreaks == URI_TRUE ? 6 : 3) *)
 Definition worst_case (nb : bool) : Z := if nb then 6 else 3.
@@ -32,8 +37,14 @@ Definition item_len (it : qitem) : qlen :=
 Inductive zres := ZErr (code : N) | ZOk (v : Z).
 
 (* ---- uriComposeQueryEngine with dest == NULL ---------------------------------
-   *charsRequired += ampersandLen + keyRequiredChars + (value == NULL ? 0 : 1 + valueRequiredChars)
-   The sum and the accumulation are plain int additions without a guard. *)
+   keyRequiredChars = worstCase * (int)keyLen; valueRequiredChars = worstCase * (int)valueLen;
+   (both below INT_MAX after the per-item guard)
+   const int valuePartChars = (value == NULL) ? 0 : 1 + valueRequiredChars;
+   if ((keyRequiredChars > INT_MAX - ampersandLen - valuePartChars)
+       || ( *charsRequired > INT_MAX - ampersandLen - keyRequiredChars - valuePartChars))
+     return URI_ERROR_OUTPUT_TOO_LARGE;
+   *charsRequired += ampersandLen + keyRequiredChars + valuePartChars;
+   The subtractions and additions associate to the left, as in C. *)
 Fixpoint required_loop (nb : bool) (first : bool) (acc : Z) (ls : list qlen) : zres :=
   match ls with
   | [] => ZOk acc
@@ -44,8 +55,11 @@ Fixpoint required_loop (nb : bool) (first : bool) (acc : Z) (ls : list qlen) : z
       let kr := worst_case nb * kl in
       let vr := worst_case nb * vl in
       let amp := if first then 0 else 1 in
-      let add := wrap32 (amp + kr + match v with None => 0 | Some _ => 1 + vr end) in
-      required_loop nb false (wrap32 (acc + add)) r
+      let vpc := match v with None => 0 | Some _ => int_add 1 vr end in
+      if (kr >? int_sub (int_sub INT_MAX amp) vpc)
+         || (acc >? int_sub (int_sub (int_sub INT_MAX amp) kr) vpc)
+      then ZErr URI_ERROR_OUTPUT_TOO_LARGE
+      else required_loop nb false (int_add acc (int_add (int_add amp kr) vpc)) r
   end.
 
 (* uriComposeQueryCharsRequiredEx as a function of the lengths; an empty list is a NULL pointer *)
